@@ -79,7 +79,8 @@ Proof.
   intros Hw Hr HI. pose proof HI as [H1 H2 H3 H4 H5 H6 H7 H8 H9].
   destruct a as [ | | | | | | | i | i | i | b]; cbn [step].
   - (* LoopDriverCall *)
-    destruct (loop_running s) eqn:EL; [|exact I]. destruct (evt_closed s) eqn:EC; [|exact HI].
+    destruct (loop_running s) eqn:EL; [|exact I]. destruct (evt_closed s) eqn:EC; cbn [andb]; [|exact HI].
+    destruct (drops p); cbn [negb]; [exact HI|].
     assert (Hs : sv s = SClosed) by auto. assert (Hc : close_posted s = true) by (apply H3; rewrite Hs; discriminate).
     pose proof (H2 (H1 Hc)) as X. congruence.
   - (* LoopExit *)
@@ -89,7 +90,7 @@ Proof.
     constructor; inv_simpl; auto.
   - (* DriverClose *)
     destruct (stop_returned s) eqn:ES; cbn [andb]; [|exact I]. destruct (close_posted s) eqn:EC; cbn [negb]; [exact I|].
-    destruct (evt_closed s) eqn:EE.
+    destruct (evt_closed s) eqn:EE; cbn [andb].
     + assert (Hs : sv s = SClosed) by auto. assert (Hc : false = true) by (apply H3; rewrite Hs; discriminate). discriminate.
     + constructor; inv_simpl; auto.
   - (* ServeTakeClose *)
@@ -133,7 +134,7 @@ Proof.
     eapply (inv_tick s _ i TSend); try reflexivity; [exact HI | rewrite EN; discriminate | discriminate].
   - (* TickSent *)
     destruct (nth i (tickers s) TDone) eqn:EN; try exact I.
-    destruct (evt_closed s) eqn:EE.
+    destruct (evt_closed s) eqn:EE; cbn [andb].
     + assert (Hd : all_done (tickers s)) by auto. rewrite Hd in EN. discriminate.
     + destruct (q_full s); [exact I|].
       eapply (inv_tick s _ i TSel); try reflexivity; try exact HI; try (rewrite EN; discriminate); try discriminate; inv_simpl; congruence.
@@ -177,19 +178,19 @@ Qed.
 
 (* Stop returns while the loop still runs (the code before fix "Stop waits for the event loop"): the loop posts to the closed channel *)
 Example stop_without_wait_refuted :
-  run (mkP false true true) (init 0) [StopReturn; DriverClose; ServeTakeClose; ServeFinish; LoopDriverCall] = SendOnClosed.
+  run (mkP false true true false) (init 0) [StopReturn; DriverClose; ServeTakeClose; ServeFinish; LoopDriverCall] = SendOnClosed.
 Proof. reflexivity. Qed.
 
 (* stopTicker only closes the stop channel: a ticker that has already chosen to post its tick posts to the closed channel *)
 Example no_rendezvous_refuted :
-  run (mkP true false true) (init 1)
+  run (mkP true false true false) (init 1)
       [LoopExit; StopReturn; DriverClose; TickFire 0; ServeTakeClose; ServeStopTicker; ServeFinish; TickSent 0] = SendOnClosed.
 Proof. reflexivity. Qed.
 
 (* plain (unguarded) tick send: with a full event queue the server waits in stopTicker for a ticker that waits for the server *)
 Example unguarded_ticker_stuck :
-  exists s, run (mkP true true false) (init 1) [LoopExit; StopReturn; DriverClose; QueueFull true; TickFire 0; ServeTakeClose] = Next s
-            /\ serve_can_move (mkP true true false) s = false /\ step (mkP true true false) s (TickSent 0) = Disabled.
+  exists s, run (mkP true true false false) (init 1) [LoopExit; StopReturn; DriverClose; QueueFull true; TickFire 0; ServeTakeClose] = Next s
+            /\ serve_can_move (mkP true true false false) s = false /\ step (mkP true true false false) s (TickSent 0) = Disabled.
 Proof. eexists. split; [reflexivity|]. split; reflexivity. Qed.
 
 Theorem run_from_init p n l : stop_waits p = true -> rendezvous p = true ->
@@ -201,4 +202,11 @@ Theorem never_stuck_from_init p n l s' : stop_waits p = true -> rendezvous p = t
 Proof.
   intros Hw Hr Hg H. destruct (run_from_init p n l Hw Hr) as [s'' [E HI]]. rewrite E in H. injection H as <-.
   apply serve_never_stuck; assumption.
+Qed.
+
+(* with a queue that drops posts after close, NO schedule can fault, whatever the other protocol elements are *)
+Theorem drops_never_faults p s a : drops p = true -> step p s a <> SendOnClosed.
+Proof.
+  intros Hd. destruct a; cbn [step]; rewrite ?Hd; cbn [negb]; rewrite ?andb_false_r;
+    repeat match goal with |- context [match ?x with _ => _ end] => destruct x end; discriminate.
 Qed.
